@@ -8,6 +8,8 @@
 import AHP.Lemmas.BuilderTop
 import AHP.Lemmas.WrapStr
 import AHP.Lemmas.WrapLexFeed
+import AHP.Lemmas.StripIERender
+import AHP.Lemmas.StripIEMulti
 namespace AHP.C02
 open AHP AHP.Spec
 
@@ -520,6 +522,366 @@ example : feedText (renderToks strayWrapperEnd)
   rw [feedText_renderToks _ strayWrapperEnd_ok, strayWrapperEnd_raises]
   intro h
   cases h
+
+/-! #### C02g — `stripIEConditionals`: what `feed` does to the text before the tokenizer sees it
+
+  Model: AHP/Model/StripIE.lean (`stripIE` = `IE_CONDITIONAL_PATTERN.findall`, `replace` of every match in order,
+  the `END_HTML` / `START_HTML` test with `addStartTag(contents, '<html>')`); `parseText = feedText ∘ stripIE`
+  (Lemmas/StripIERender.lean) is `Parser.feed`, i.e. what `parseStr` / `parseFile` run after `reset()`.
+  `hasIEMarker s` (Lemmas/StripIE.lean) decides whether `<!--` ws* `[` ws* `if` (ws = blank, tab, CR, LF) — the
+  part of the pattern in front of `.*-->` — stands somewhere in `s`; `IsIEOpener op` is the explicit reading of
+  such an opener. -/
+
+/-- **C02g (identity).** A text in which `<!--` ws* `[` ws* `if` does not occur is returned unchanged. -/
+theorem stripIE_id (s : Str) (h : hasIEMarker s = false) : stripIE s = s :=
+  stripIE_of_no_marker s h
+
+/-- **C02g (two readings of the marker).** The decidable `hasIEMarker` is the explicit reading: an opener
+    `<!--` ws* `[` ws* `if` stands somewhere in the text. -/
+theorem hasIEMarker_reading (s : Str) : hasIEMarker s = true ↔ ∃ a op b, IsIEOpener op ∧ s = a ++ op ++ b :=
+  hasIEMarker_iff s
+
+theorem hasIEMarker_of_opener (a op b : Str) (hop : IsIEOpener op) : hasIEMarker (a ++ op ++ b) = true :=
+  (hasIEMarker_iff _).mpr ⟨a, op, b, hop, rfl⟩
+
+/-- so a text without the marker contains no explicit opener anywhere -/
+theorem no_opener_of_no_marker (s : Str) (h : hasIEMarker s = false) :
+    ¬ ∃ a op b, IsIEOpener op ∧ s = a ++ op ++ b := by
+  intro hex
+  rw [(hasIEMarker_iff s).mpr hex] at h
+  exact absurd h (by simp)
+
+/-- **C02g (the model's greedy matching is the regular expression's).** The deterministic parts of the three
+    patterns (`IE_CONDITIONAL_PATTERN` up to `if`, the middles of `END_HTML` / `START_HTML`) are item sequences
+    in which every star is followed by a character class disjoint from its own.  For such a sequence the greedy
+    `matchItems` returns `(m, r)` exactly when `m` is matched in the declarative sense (`Matches`: any way of
+    splitting the text over the items) and the text is `m ++ r` — and a text has at most one such prefix, so
+    backtracking has nothing else to find. -/
+theorem patterns_greedy_is_declarative :
+    (∀ ps, ps = ieOpenerPat ∨ ps = endHtmlPat ∨ ps = startHtmlPat →
+      (∀ z m r, matchItems ps z = some (m, r) ↔ Matches ps m ∧ z = m ++ r) ∧
+      (∀ m₁ r₁ m₂ r₂, Matches ps m₁ → Matches ps m₂ → m₁ ++ r₁ = m₂ ++ r₂ → m₁ = m₂ ∧ r₁ = r₂)) := by
+  intro ps h
+  have hd : Det ps := by
+    rcases h with rfl | rfl | rfl
+    · exact det_ieOpenerPat
+    · exact det_endHtmlPat
+    · exact det_startHtmlPat
+  exact ⟨fun z m r => matchItems_iff ps hd z m r, fun m₁ r₁ m₂ r₂ h₁ h₂ he => matches_unique ps hd m₁ r₁ m₂ r₂ h₁ h₂ he⟩
+
+/-- **C02g (one match, explicitly).** `IE_CONDITIONAL_PATTERN.match(z)` gives `m` iff `m` is an opener, a body
+    without line break, and `-->`, and the rest of that line has no further `-->` (greedy `.*`, `.` ≠ `\n`). -/
+theorem ieMatch_reading (z m : Str) : ieMatchAt z = some m ↔
+    ∃ op body rest, IsIEOpener op ∧ '\n' ∉ body ∧ m = op ++ body ++ arrow ∧ z = m ++ rest ∧
+      hasArrow (rest.takeWhile (· ≠ '\n')) = false :=
+  ieMatchAt_iff z m
+
+/-- **C02g (serialiser output, tight form).** The rendering of a token list in the serialiser's image contains
+    the marker exactly when the rendering of one of its tokens does: no opener reaches across a token boundary. -/
+theorem renderToks_marker_iff (ts : List Token) (h : ListOK ts) :
+    hasIEMarker (renderToks ts) = ts.any (fun t => hasIEMarker (renderTok t)) :=
+  hasIEMarker_renderToks ts h
+
+/-- one well-formed token: its rendering contains the marker iff the token-level test `tokIE` says so — a comment
+    whose body starts with ws* `[` ws* `if`; an attribute value, declaration body or processing instruction
+    that contains the marker; never a tag name, an end tag, text or a reference -/
+theorem token_marker_iff (t : Token) (h : TokOK t) : hasIEMarker (renderTok t) = tokIE t :=
+  tokIE_render t h
+
+/-- **C02g (serialiser output, on tokens).** The rendering of a token list in the serialiser's image contains
+    the marker iff one of its tokens tests positive. -/
+theorem renderToks_marker_iff_tokens (ts : List Token) (h : ListOK ts) :
+    hasIEMarker (renderToks ts) = ts.any tokIE :=
+  hasIEMarker_renderToks_tok ts h
+
+/-- `TokNoIE` is the negative test spelled out -/
+theorem tokNoIE_reading (t : Token) : TokNoIE t ↔ tokIE t = false := tokNoIE_iff t
+
+/-- **C02g (serialiser output).** The condition on tokens (`TokNoIE`): no comment's body starts with
+    ws* `[` ws* `if`; no attribute value, declaration body or processing instruction contains the marker
+    (tags, end tags, text and references never do).  Then the rendering has no marker. -/
+theorem renderToks_no_marker (ts : List Token) (h : ListOK ts) (hm : ∀ t ∈ ts, TokNoIE t) :
+    hasIEMarker (renderToks ts) = false :=
+  renderToks_no_marker_of ts h hm
+
+/-- a comment token is the only place where the condition speaks about the *start* of a body: its rendering
+    has the marker exactly when the body starts with ws* `[` ws* `if` -/
+theorem comment_marker_iff (c : Str) (h : CommentOK c) :
+    hasIEMarker (renderTok (.comment c)) = condStart c :=
+  hasIEMarker_comment c h
+
+/-- on such renderings `feed` with the stripping step is `feed` without it -/
+theorem parseText_eq_feedText (ts : List Token) (h : ListOK ts) (hm : ∀ t ∈ ts, TokNoIE t) :
+    parseText (renderToks ts) = feedText (renderToks ts) :=
+  parseText_renderToks ts h hm
+
+/-- **C02a/f/g end to end, on text, with the stripping step.** For every token list in the serialiser's image
+    that does not mention the wrapper name and meets the token-level condition, `feed` (strip IE conditionals;
+    lex; build; on MultipleRootNodeException insert the wrapper into the text, lex and build again) gives the
+    document of the recursive-descent specification. -/
+theorem parseText_eq_spec (ts : List Token) (h : ListOK ts) (hw : NoWrapper ts) (hm : ∀ t ∈ ts, TokNoIE t) :
+    parseText (renderToks ts) = some (.doc (Spec.build ts).1 (Spec.build ts).2) := by
+  rw [parseText_eq_feedText ts h hm, feedText_eq_spec ts h hw]
+
+/-- **C02g (one conditional on one line).** `pre ++ cond ++ post` with `cond` = an opener, a body that stays on
+    the line, and `-->`; no marker in `pre` or in `post`; no further `-->` on the rest of `cond`'s line (so the
+    greedy `.*` ends at `cond`'s own arrow).  `findall` finds exactly `cond`, `replace` removes exactly that
+    occurrence, and the result is `pre ++ post` up to the html-tag rule. -/
+theorem stripIE_removes (pre op body post : Str) (hop : IsIEOpener op) (hbody : '\n' ∉ body)
+    (hpre : hasIEMarker pre = false) (hpost : hasIEMarker post = false)
+    (hline : hasArrow (post.takeWhile (· ≠ '\n')) = false) :
+    stripIE (pre ++ (op ++ body ++ arrow) ++ post) = addHtmlIfMissing (pre ++ post) := by
+  unfold stripIE
+  rw [ieFindAll_single pre op body post hop hbody hpre hpost hline]
+  simp only [List.isEmpty_cons, Bool.false_eq_true, if_false, List.foldl_cons, List.foldl_nil]
+  rw [removeAll_single pre op body post hop hpre hpost]
+
+/-- **C02g (`findall`, explicitly).** The matches are found from left to right and do not overlap: nothing found
+    means no match starts anywhere; a first match `m` splits the text into `pre ++ m ++ post` with no match
+    starting inside `pre`, the pattern giving exactly `m` there, and the search continuing in `post`. -/
+theorem findall_reading (s : Str) :
+    (ieFindAll s = [] → NoMatchIn s) ∧
+    (∀ m ms, ieFindAll s = m :: ms → ∃ pre post, s = pre ++ m ++ post ∧ NoMatchBefore pre (m ++ post) ∧
+      ieMatchAt (m ++ post) = some m ∧ ms = ieFindAll post) :=
+  ⟨noMatchIn_of_findAll_nil s, fun m ms h => findAll_cons_split s m ms h⟩
+
+/-- **C02g (exactly one match, in general).** Whenever `findall` finds exactly one match — whatever else the
+    text contains: openers without `-->` on their line, a second copy of the match's text overlapping it — the
+    result is the text with that one occurrence cut out, up to the html-tag rule.  `stripIE_removes` is the
+    instance with explicit hypotheses on `pre`, the conditional and `post`. -/
+theorem stripIE_single_match (s m : Str) (h : ieFindAll s = [m]) :
+    ∃ pre post, s = pre ++ m ++ post ∧ NoMatchBefore pre (m ++ post) ∧ ieMatchAt (m ++ post) = some m ∧
+      NoMatchIn post ∧ stripIE s = addHtmlIfMissing (pre ++ post) :=
+  stripIE_of_single_match s m h
+
+/-- **C02g (several conditionals).** The text `g₀ c₁ g₁ … cₖ gₖ` (`segText` / `joinGaps`, Lemmas/StripIEMulti.lean):
+    at every `cᵢ` the pattern matches exactly `cᵢ` (`MatchOK`; by `ieMatch_reading`: opener, body on one line, `-->`,
+    no further `-->` on the rest of the line); the gaps joined contain no marker (cutting a conditional out makes
+    no new one); no marker inside a conditional behind its own opener; no conditional is a proper prefix of
+    another (`Incomp`; equal ones are fine — the first `replace` takes them all).  Then `findall` finds
+    `c₁ … cₖ`, the removals do not disturb one another, and the result is the gaps joined, up to the html-tag rule. -/
+theorem stripIE_several (g0 : Str) (L : Segs) (hne : L ≠ []) (hok : MatchOK L)
+    (hgaps : hasIEMarker (g0 ++ joinGaps L) = false)
+    (hin : ∀ cg ∈ L, hasIEMarker (cg.1.drop 1) = false)
+    (hinc : ∀ a ∈ L, ∀ b ∈ L, Incomp a.1 b.1) :
+    stripIE (g0 ++ segText L) = addHtmlIfMissing (g0 ++ joinGaps L) :=
+  stripIE_segs g0 L hne hok hgaps hin hinc
+
+/-- **C02g (a conditional comment token is dropped).** A token list in the serialiser's image with one comment
+    token whose body starts with ws* `[` ws* `if` (one line; no further `-->` on the rest of that line in what
+    follows; the marker nowhere else; the html-tag rule not firing): `feed` builds the document of the list
+    WITHOUT that token — where `feed` without the stripping step keeps the comment as a text block. -/
+theorem parseText_drops_conditional (ts1 ts2 : List Token) (c : Str) (hc : condStart c = true) (hnl : '\n' ∉ c)
+    (h1 : hasIEMarker (renderToks ts1) = false) (h2 : hasIEMarker (renderToks ts2) = false)
+    (hline : hasArrow ((renderToks ts2).takeWhile (· ≠ '\n')) = false)
+    (hhtml : occurs endHtmlPat (renderToks (ts1 ++ ts2)) = false ∨ occurs startHtmlPat (renderToks (ts1 ++ ts2)) = true)
+    (hok : ListOK (ts1 ++ ts2)) (hw : NoWrapper (ts1 ++ ts2)) :
+    parseText (renderToks (ts1 ++ .comment c :: ts2))
+      = some (.doc (Spec.build (ts1 ++ ts2)).1 (Spec.build (ts1 ++ ts2)).2) := by
+  unfold parseText
+  rw [stripIE_comment_token ts1 ts2 c hc hnl h1 h2 hline]
+  have : addHtmlIfMissing (renderToks (ts1 ++ ts2)) = renderToks (ts1 ++ ts2) := by
+    unfold addHtmlIfMissing
+    rcases hhtml with h | h <;> simp [h]
+  rw [this, feedText_eq_spec _ hok hw]
+
+/-- **C02g / C03 (size).** Stripping only removes text, except for the six characters of `<html>`. -/
+theorem stripIE_length_le (s : Str) : (stripIE s).length ≤ s.length + 6 := stripIE_length s
+
+/-- the html-tag rule spelled out: an `</html>` end tag (any case, white space allowed inside) without an
+    `<html>` start tag gets `<html>` inserted by `addStartTag` — directly after a leading doctype as
+    `DOCTYPE_MATCH` reads it, else in front; otherwise nothing is added -/
+theorem addHtmlIfMissing_cases (s : Str) :
+    (occurs endHtmlPat s = true ∧ occurs startHtmlPat s = false ∧
+      ((∃ p rest, DoctypeSplit s p rest ∧ addHtmlIfMissing s = p ++ htmlStartTag ++ rest) ∨
+       (startsWithDoctype s = false ∧ addHtmlIfMissing s = htmlStartTag ++ s))) ∨
+    ((occurs endHtmlPat s = false ∨ occurs startHtmlPat s = true) ∧ addHtmlIfMissing s = s) := by
+  unfold addHtmlIfMissing
+  cases he : occurs endHtmlPat s with
+  | false => right; exact ⟨Or.inl rfl, by simp⟩
+  | true =>
+    cases hs : occurs startHtmlPat s with
+    | true => right; exact ⟨Or.inr rfl, by simp⟩
+    | false =>
+      left
+      refine ⟨rfl, rfl, ?_⟩
+      simp only [Bool.not_false, Bool.and_self, if_true]
+      cases hd : startsWithDoctype s with
+      | true =>
+        left
+        obtain ⟨p, rest, hsp⟩ := (startsWithDoctype_iff s).mp hd
+        refine ⟨p, rest, hsp, ?_⟩
+        unfold addStartTagStr
+        rw [doctypePrefix_of_split s p rest hsp]
+      | false =>
+        right
+        refine ⟨rfl, ?_⟩
+        unfold addStartTagStr
+        rw [doctypePrefix_none_of_not s hd]
+
+/-- the usual case: the document keeps an `<html>` start tag (or has no `</html>`): the conditional is cut out -/
+theorem stripIE_removes_plain (pre op body post : Str) (hop : IsIEOpener op) (hbody : '\n' ∉ body)
+    (hpre : hasIEMarker pre = false) (hpost : hasIEMarker post = false)
+    (hline : hasArrow (post.takeWhile (· ≠ '\n')) = false)
+    (hhtml : occurs endHtmlPat (pre ++ post) = false ∨ occurs startHtmlPat (pre ++ post) = true) :
+    stripIE (pre ++ (op ++ body ++ arrow) ++ post) = pre ++ post := by
+  rw [stripIE_removes pre op body post hop hbody hpre hpost hline]
+  unfold addHtmlIfMissing
+  rcases hhtml with h | h <;> simp [h]
+
+/-! non-vacuity and the conditions at work -/
+example : IsIEOpener "<!--[if".toList := ⟨[], [], by simp, by simp, rfl⟩
+example : IsIEOpener "<!-- \n[\tif".toList :=
+  ⟨" \n".toList, "\t".toList, by decide, by decide, rfl⟩
+
+example : hasIEMarker "<p>x</p><!-- [ if IE]>".toList = true := by decide
+example : hasIEMarker "<p>x</p><!--[IF IE]><!-- if --><!-[if]>".toList = false := by decide
+
+/-- the classic use: the conditional carries the only `<html>` start tag; it is cut out and `<html>` is put
+    back after the doctype -/
+example : stripIE "<!DOCTYPE html><!--[if lt IE 9]><html class=\"ie\"><![endif]-->\n<p>x</p></html>".toList
+    = "<!DOCTYPE html><html>\n<p>x</p></html>".toList := by decide
+
+example : stripIE "<!DOCTYPE html><!--[if lt IE 9]><html class=\"ie\"><![endif]-->\n<p>x</p></html>".toList
+    = addHtmlIfMissing ("<!DOCTYPE html>".toList ++ "\n<p>x</p></html>".toList) :=
+  stripIE_removes "<!DOCTYPE html>".toList "<!--[if".toList " lt IE 9]><html class=\"ie\"><![endif]".toList
+    "\n<p>x</p></html>".toList ⟨[], [], by simp, by simp, rfl⟩ (by decide) (by decide) (by decide) (by decide)
+
+/-- one match although an opener without `-->` on its line stands in front and a near miss behind
+    (`stripIE_removes` does not apply: `hasIEMarker pre = true`; `stripIE_single_match` does) -/
+example : ieFindAll "<!--[if IE]>\n<p>a</p><!--[if IE 6]>b<![endif]-->c\n<!--[IF]-->".toList
+    = ["<!--[if IE 6]>b<![endif]-->".toList] := by decide
+example : stripIE "<!--[if IE]>\n<p>a</p><!--[if IE 6]>b<![endif]-->c\n<!--[IF]-->".toList
+    = "<!--[if IE]>\n<p>a</p>c\n<!--[IF]-->".toList := by decide
+
+/-- the classic head of a document: three conditionals (one of them downlevel-revealed) carrying the `<html>` start
+    tags, one per line; all three go, `<html>` is put back after the doctype -/
+def classicSegs : Segs :=
+  [("<!--[if lt IE 7]><html class=\"ie6\"><![endif]-->".toList, "\n".toList),
+   ("<!--[if IE 7]><html class=\"ie7\"><![endif]-->".toList, "\n".toList),
+   ("<!--[if gt IE 8]><!--><html><!--<![endif]-->".toList, "\n<head></head><body><p>x</p></body></html>".toList)]
+
+example : stripIE ("<!DOCTYPE html>\n".toList ++ segText classicSegs)
+    = addHtmlIfMissing ("<!DOCTYPE html>\n".toList ++ joinGaps classicSegs) :=
+  stripIE_several _ classicSegs (by decide) ⟨by decide, by decide, by decide, trivial⟩ (by decide) (by decide) (by decide)
+
+example : addHtmlIfMissing ("<!DOCTYPE html>\n".toList ++ joinGaps classicSegs)
+    = "<!DOCTYPE html><html>\n\n\n\n<head></head><body><p>x</p></body></html>".toList := by decide
+
+/-- `Incomp` is needed: the first conditional is a proper prefix of the second, its removal damages the second,
+    which is then not found any more -/
+example : stripIE "<!--[if a]-->\n<!--[if a]--> x -->\n".toList = "\n x -->\n".toList := by decide
+/-- "no marker in the gaps joined" is needed: cutting the conditional out of `<!-` … `-[if y]` makes a new one -/
+example : stripIE "<!-<!--[if x]-->-\n[if y]-->".toList = "<!--\n[if y]-->".toList := by decide
+
+/-- `.*` is greedy: a later `-->` on the same line belongs to the match (`hline` is needed) -/
+example : stripIE "a<!--[if IE]>b<![endif]--> c <!-- d --> e\nf".toList = "a e\nf".toList := by decide
+/-- `.` stops at a line break: a conditional whose `-->` is on another line is not touched (`hbody` is needed) -/
+example : stripIE "a<!--[if IE]>\nb<![endif]-->c".toList = "a<!--[if IE]>\nb<![endif]-->c".toList := by decide
+/-- `replace` removes *every* occurrence of a match, and matches are removed in order: here the first match
+    also occurs at the end of the second, which is then no longer found (`hpost` is needed) -/
+example : stripIE "<!--[if a]-->\n<!--[if b]--><!--[if a]-->".toList = "\n<!--[if b]-->".toList := by decide
+/-- removing a match can leave a new conditional behind: `stripIE` is applied once, not to a fixed point -/
+example : stripIE "<!-<!--[if x]-->-\n[if y]-->".toList = "<!--\n[if y]-->".toList := by decide
+example : stripIE (stripIE "<!-<!--[if x]-->-\n[if y]-->".toList) = [] := by decide
+
+/-- a token list with comments, a doctype and attribute values that meets the token-level condition -/
+def sampleDocIE : List Token :=
+  [.decl "DOCTYPE html".toList, .comment "x [if] is not at the start ".toList,
+   .start "a".toList [("href".toList, some "x<!-- [y".toList)], .data "[if IE]".toList, .end_ "a".toList,
+   .comment "if".toList, .start "br".toList []]
+
+theorem sampleDocIE_ok : ListOK sampleDocIE := by
+  apply listOK_of_noAdjData
+  · intro t ht
+    simp [sampleDocIE] at ht
+    rcases ht with rfl | rfl | rfl | rfl | rfl | rfl | rfl
+    · exact ⟨by decide, by decide⟩
+    · simp [TokOK, CommentOK]
+    · refine ⟨tagOK_a, by decide, ?_⟩
+      intro x hx
+      simp at hx
+      subst hx
+      exact ⟨⟨by decide, by decide, by decide⟩, by simp [ValueOK], by decide⟩
+    · exact Or.inr (Or.inr ⟨by decide, by decide⟩)
+    · exact tagOK_a
+    · simp [TokOK, CommentOK]
+    · exact ⟨tagOK_br, by decide, fun x hx => by simp at hx⟩
+  · intro t ht
+    simp [sampleDocIE] at ht
+    rcases ht with rfl | rfl | rfl | rfl | rfl | rfl | rfl <;> first | trivial | exact ⟨by decide, by decide⟩
+  · simp [sampleDocIE, NoAdjData, isData]
+
+theorem sampleDocIE_noIE : ∀ t ∈ sampleDocIE, TokNoIE t := by
+  intro t ht
+  simp [sampleDocIE] at ht
+  rcases ht with rfl | rfl | rfl | rfl | rfl | rfl | rfl
+  · show hasIEMarker _ = false; decide
+  · show condStart _ = false; decide
+  · intro x hx v hv
+    simp at hx
+    subst hx
+    simp at hv
+    subst hv
+    decide
+  · trivial
+  · trivial
+  · show condStart _ = false; decide
+  · intro x hx; simp at hx
+
+example : parseText (renderToks sampleDocIE) = some (.doc (Spec.build sampleDocIE).1 (Spec.build sampleDocIE).2) :=
+  parseText_eq_spec sampleDocIE sampleDocIE_ok (by
+    intro t ht
+    simp [sampleDocIE] at ht
+    rcases ht with rfl | rfl | rfl | rfl | rfl | rfl | rfl <;> decide) sampleDocIE_noIE
+
+/-- the token-level condition is needed: a comment token whose body starts with `[if` is in the serialiser's
+    image, but `feed` strips it from the text — the element it stood in comes out empty -/
+def condComment : List Token :=
+  [.start "a".toList [], .comment "[if IE]><b>x</b><![endif]".toList, .end_ "a".toList]
+
+theorem condComment_ok : ListOK condComment := by
+  apply listOK_of_noAdjData
+  · intro t ht
+    simp [condComment] at ht
+    rcases ht with rfl | rfl | rfl
+    · exact ⟨tagOK_a, by decide, fun x hx => by simp at hx⟩
+    · simp [TokOK, CommentOK]
+    · exact tagOK_a
+  · intro t ht
+    simp [condComment] at ht
+    rcases ht with rfl | rfl | rfl <;> trivial
+  · simp [condComment, NoAdjData, isData]
+
+example : stripIE (renderToks condComment) = "<a ></a>".toList := by decide
+
+/-- …and `parseText_drops_conditional` says what comes out instead: the document of the list without the token -/
+example : parseText (renderToks condComment)
+    = some (.doc (Spec.build [.start "a".toList [], .end_ "a".toList]).1 (Spec.build [.start "a".toList [], .end_ "a".toList]).2) :=
+  parseText_drops_conditional [.start "a".toList []] [.end_ "a".toList] "[if IE]><b>x</b><![endif]".toList
+    (by decide) (by decide) (by decide) (by decide) (by decide) (Or.inl (by decide))
+    ⟨⟨tagOK_a, by decide, fun x hx => by simp at hx⟩, trivial, tagOK_a, trivial, trivial⟩
+    (by intro t ht; simp at ht; rcases ht with rfl | rfl <;> decide)
+
+/-- number of children of the root element a parse gave -/
+def rootKids : FeedResult → Option Nat
+  | .doc ⟨_, some (.elem _ _ _ kids)⟩ _ => some kids.length
+  | _ => none
+
+def emptyA : List Token := [.start "a".toList [], .end_ "a".toList]
+
+theorem emptyA_ok : ListOK emptyA :=
+  ⟨⟨tagOK_a, by decide, fun x hx => by simp at hx⟩, trivial, tagOK_a, trivial, trivial⟩
+
+theorem condComment_stripped : stripIE (renderToks condComment) = renderToks emptyA := by decide
+
+example : parseText (renderToks condComment) ≠ feedText (renderToks condComment) := by
+  unfold parseText
+  rw [condComment_stripped, feedText_renderToks _ condComment_ok, feedText_renderToks _ emptyA_ok]
+  intro h
+  have h2 := congrArg (Option.map rootKids) h
+  revert h2
+  decide
 
 /-! #### Non-vacuity -/
 example : NoWrapper [.start "a".toList [], .data "x".toList, .end_ "b".toList, .start "br".toList []] := by
